@@ -452,6 +452,43 @@ def parse_cbmc_json(out):
 
 
 def run_unit(name, tier, workdir, cfg, extra_defs=(), tag="p"):
+    """run one unit; a unit with "variants" (a list of -D lists, e.g. enumerated concrete layouts of the bounded
+    tier) is run once per variant in parallel and the obligations are merged (ids suffixed @<variant>)."""
+    u0 = load_unit(name)
+    variants = u0.get("variants")
+    if isinstance(variants, dict):
+        variants = variants.get(tier, variants.get("quick"))
+    if not variants:
+        return run_unit1(name, tier, workdir, cfg, extra_defs, tag)
+    t0 = time.time()
+    with ThreadPoolExecutor(max_workers=max(1, len(variants))) as ex:
+        subs = list(ex.map(lambda kv: run_unit1(name, tier, workdir, cfg, list(extra_defs) + list(kv[1]), "%s%d" % (tag, kv[0])), enumerate(variants)))
+    ur = UnitRun(u0, tier)
+    ur.cmds = subs[0].cmds + ["(... the same pipeline for %d variants: %s)" % (len(variants), "; ".join(" ".join(v) for v in variants[:40]))]
+    ur.backend = subs[0].backend
+    ur.variant_defs = {}
+    for k, su in enumerate(subs):
+        vt = "v%d" % k
+        ur.variant_defs[vt] = list(variants[k])
+        for r in su.results:
+            r2 = dict(r)
+            r2["id"] = "%s@%s" % (r["id"], vt)
+            r2["variant"] = list(variants[k])
+            ur.results.append(r2)
+        ur.solver_s += su.solver_s
+    und = [(k, su) for k, su in enumerate(subs) if su.status == "undecided"]
+    if any(su.status == "failed" for su in subs):
+        ur.status = "failed"
+    elif und:
+        ur.status = "undecided"
+        ur.reason = "variant %s: %s" % (" ".join(variants[und[0][0]]), und[0][1].reason)
+    else:
+        ur.status = "ok"
+    ur.wall = time.time() - t0
+    return ur
+
+
+def run_unit1(name, tier, workdir, cfg, extra_defs=(), tag="p"):
     u = load_unit(name)
     ur = UnitRun(u, tier)
     t0 = time.time()
@@ -600,6 +637,29 @@ def find_matching_property(results, target):
 
 
 def witness_and_replay(name, tier, workdir, cfg, failed, pid, extra_defs=()):
+    """(variants: obligations are grouped by variant and each group is handled with that variant's defines)"""
+    byvar = {}
+    for f in failed:
+        byvar.setdefault(tuple(f.get("variant", ())), []).append(f)
+    if len(byvar) > 1 or (byvar and list(byvar.keys())[0]):
+        outs = []
+        for k, (var, fs) in enumerate(sorted(byvar.items())[:3]):
+            fs2 = []
+            for f in fs:
+                f2 = dict(f)
+                f2["id"] = (f["id"] or "").split("@")[0]
+                f2["full_id"] = f["id"]
+                f2.pop("variant", None)
+                fs2.append(f2)
+            sub = witness_and_replay1(name, tier, workdir, cfg, fs2, pid, list(extra_defs) + list(var), tagx="w%d" % k)
+            for o in sub:
+                o["obligation"]["id"] = o["obligation"].get("full_id", o["obligation"]["id"])
+            outs += sub
+        return outs
+    return witness_and_replay1(name, tier, workdir, cfg, failed, pid, extra_defs)
+
+
+def witness_and_replay1(name, tier, workdir, cfg, failed, pid, extra_defs=(), tagx="w"):
     """For failed obligations of unit `name`: search a concrete input (witness build), write the replay
     file, run the native replay.  Returns list of dict(path, reproduced, obligation)."""
     u = load_unit(name)
@@ -608,7 +668,7 @@ def witness_and_replay(name, tier, workdir, cfg, failed, pid, extra_defs=()):
     wbin = None
     wuw = []
     try:
-        wbin, wuw, _ = build_unit(u, tier, workdir, cfg, list(extra_defs) + ["-DVERIF_WITNESS"] + u["witness_defs"], tag="w")
+        wbin, wuw, _ = build_unit(u, tier, workdir, cfg, list(extra_defs) + ["-DVERIF_WITNESS"] + u["witness_defs"], tag=tagx)
         cmd, rc, out, err, wall = run_cbmc(u, wbin, wuw, timeout=u["timeout"])
         res, _, _, _ = parse_cbmc_json(out)
         if res is not None:
@@ -621,12 +681,12 @@ def witness_and_replay(name, tier, workdir, cfg, failed, pid, extra_defs=()):
     done = 0
     os.makedirs(os.path.join(VERIF, "replays"), exist_ok=True)
     for f in failed:
-        safe = re.sub(r"[^A-Za-z0-9_.-]", "_", f["id"] or "obligation")
+        safe = re.sub(r"[^A-Za-z0-9_.@-]", "_", f.get("full_id") or f["id"] or "obligation")
         rpath = os.path.join(VERIF, "replays", "%s-%s-%s.json" % (pid, name, safe))
         rec = {"property": pid, "unit": name, "functions_under_contract": u["functions"],
                "obligation": f["id"], "obligation_class": f["cls"], "obligation_text": f["desc"],
                "location": "%s:%s (%s)" % (f["file"], f["line"], f["function"]),
-               "tier": u["tier"], "inputs": None, "native_replay": None, "verifier_output": None}
+               "tier": u["tier"], "variant_defines": list(extra_defs), "inputs": None, "native_replay": None, "verifier_output": None}
         target = None
         if wres is not None and done < 4:
             m = find_matching_property(wres, f)
